@@ -1902,8 +1902,9 @@ namespace k34
 
     struct GenStat
     {
-        unsigned bothMarked = 0, removedV = 0, removedE = 0;
+        unsigned bothMarked = 0, removedV = 0, removedE = 0, indexLookups = 0, stateEdits = 0;
         bool goalOrderRandom = false, decoupled = false, derivedV = false, derivedE = false;
+        std::string indexBad, editBad;  // first disagreement between state-addressed and index-addressed access (empty: none)
     };
 
     // random graph; every vertex state / control stays owned by the World
@@ -2012,6 +2013,53 @@ namespace k34
             pd.decoupleFromPlanner();
             gs.decoupled = true;
         }
+        // state-addressed access must agree with index-addressed access, also after vertices were removed and the others
+        // renumbered: what is stored is the graph the caller built only if edits by state land on the vertex holding that state
+        for (unsigned i = 0; i < pd.numVertices(); ++i)
+        {
+            ++gs.indexLookups;
+            unsigned got = pd.vertexIndex(pd.getVertex(i));
+            if (got != i && gs.indexBad.empty())
+                gs.indexBad = "vertexIndex(getVertex(" + std::to_string(i) + ")) = " + std::to_string(got) + " in a graph of " + std::to_string(pd.numVertices()) +
+                              " vertices after " + std::to_string(gs.removedV) + " removals";
+        }
+        if (pd.numVertices() > 0 && rng.coin(gs.removedV ? 0.8 : 0.2))
+        {
+            auto listed = [&](bool start, unsigned i) {
+                unsigned n = start ? pd.numStartVertices() : pd.numGoalVertices();
+                for (unsigned j = 0; j < n; ++j)
+                    if ((start ? pd.getStartIndex(j) : pd.getGoalIndex(j)) == i) return true;
+                return false;
+            };
+            unsigned k = 1 + (unsigned)rng.ui(4);
+            for (unsigned j = 0; j < k; ++j)
+            {
+                unsigned i = (unsigned)rng.ui(pd.numVertices());
+                const ob::State *st = pd.getVertex(i).getState();
+                unsigned op = (unsigned)rng.ui(3);
+                std::string bad;
+                if (op == 0)
+                {
+                    int tag = randTag(rng);
+                    bool r = pd.tagState(st, tag);
+                    if (!r || pd.getVertex(i).getTag() != tag) bad = "tagState(state of vertex " + std::to_string(i) + ") returned " + (r ? "true" : "false") + " and the vertex does not carry the tag";
+                }
+                else if (op == 1)
+                {
+                    if (!allowBoth && listed(false, i)) continue;
+                    bool r = pd.markStartState(st);
+                    if (!r || !listed(true, i)) bad = "markStartState(state of vertex " + std::to_string(i) + ") returned " + (r ? "true" : "false") + " and the vertex is not in the start list";
+                }
+                else
+                {
+                    if (!allowBoth && listed(true, i)) continue;
+                    bool r = pd.markGoalState(st);
+                    if (!r || !listed(false, i)) bad = "markGoalState(state of vertex " + std::to_string(i) + ") returned " + (r ? "true" : "false") + " and the vertex is not in the goal list";
+                }
+                ++gs.stateEdits;
+                if (!bad.empty() && gs.editBad.empty()) gs.editBad = bad + " (" + std::to_string(pd.numVertices()) + " vertices, " + std::to_string(gs.removedV) + " removed before)";
+            }
+        }
     }
 
     static void run(Sink &sink, Rng &rng, const Args &a, long c, bool ctl)
@@ -2078,6 +2126,12 @@ namespace k34
         generate(rng, w, *pd, nV, gs);
         const Snap s1 = snap(*pd, sp, cs);
         sink.count("c09_pd_graphs");
+        sink.count("c09_pd_state_index_lookups", gs.indexLookups);
+        sink.count("c09_pd_state_addressed_edits", gs.stateEdits);
+        if (!gs.indexBad.empty())
+            sink.viol("C09:planner-data-state-index:PlannerData", J().str("what", "the state -> vertex index map disagrees with the vertex order").str("detail", gs.indexBad));
+        if (!gs.editBad.empty())
+            sink.viol("C09:planner-data-state-edit:PlannerData", J().str("what", "an edit addressed by state did not land on the vertex holding that state").str("detail", gs.editBad));
         sink.count(ctl ? "c09_pd_graphs_control" : "c09_pd_graphs_geometric");
         sink.count("c09_pd_vertices", s1.nv);
         sink.count("c09_pd_edges", s1.ne);
